@@ -179,6 +179,9 @@ def run(ctx: Ctx):
         "the source zone (zoneinfo / pytz) is the reference for offsets and abbreviations; its transitions are found by a 6-hour scan + bisection",
         "a zone whose only mismatching probes lie in a known class (displaced onset windows, periods shorter than 64 days) is reported as KNOWN",
     ]
+    # ------------------------------------------------------------- FRESH: history independence of returned objects (spec/Fresh.tla)
+    from vf import fresh
+    fresh.step(ctx, "C13")
     return ctx.finish(rule=(
         "zone ids (quick: 12 hard zones + 8 seeded; thorough: every IANA id of the provider) x both providers x windows (1970-2038 and "
         "2005-2015): every source transition -1s/0/+1s, interval midpoints and random instants, judged by TLC against the generated "
